@@ -1296,3 +1296,126 @@ pub fn run_c18m(toks: &[&str]) -> Lines {
     out.push(("orc", if why.is_empty() { "ok".to_string() } else { format!("FAIL {}", why.join(",")) }));
     out
 }
+
+// stream mgr: the shard manager.  `cap N | tgt T | C .. | key K f | == | C .. | == | R 0 | qd a,b | A <block> | FL | qd ..`:
+// every group with C ops is a shard file (serialized by the crate, exported under a key if a `key` op is present; flag bit 4 of the
+// export drops the chunk table); `R i` registers shard i (one call per shard, so the order is the script's), `A` adds a block to
+// the in-memory shard through the manager (which flushes by itself when the size target is reached), `FL` flushes, `qd` asks the
+// manager.  The answers are compared with the model; every answer is judged for truthfulness, and -- when the cap was never
+// reached -- a query for a chunk the manager was told about, whose first 64 bits are unambiguous under its key, must be answered.
+pub fn run_mgr(toks: &[&str]) -> Lines {
+    let ops = split_ops(toks);
+    let mut groups: Vec<Vec<Vec<&str>>> = vec![vec![]];
+    for op in &ops {
+        if op[0] == "==" {
+            groups.push(vec![]);
+        } else {
+            groups.last_mut().unwrap().push(op.clone());
+        }
+    }
+    let dir = tempfile::tempdir().unwrap();
+    let mut out: Lines = vec![];
+    let mut why: Vec<String> = vec![];
+    // (path, key, stored blocks)
+    let mut shards: Vec<(std::path::PathBuf, MerkleHash, Vec<MDBCASInfo>)> = vec![];
+    let mut files: Vec<Vec<u8>> = vec![];
+    for g in &groups {
+        if !g.iter().any(|o| o[0] == "C") {
+            continue;
+        }
+        let b = build(g);
+        let (bytes, info) = serialize(&b.mem);
+        let (w, key, stored) = match g.iter().find(|o| o[0] == "key") {
+            Some(o) => {
+                let key = h32(o[1]);
+                let flags: u32 = o[2].parse().unwrap();
+                let mut w = vec![];
+                info.export_as_keyed_shard(&mut Cursor::new(&bytes), &mut w, key, std::time::Duration::from_secs(3600), flags & 1 != 0, flags & 2 != 0, flags & 4 != 0).unwrap();
+                (w, key, keyed_cass(&b.cass, &key))
+            },
+            None => (bytes, MerkleHash::default(), b.cass.clone()),
+        };
+        let path = dir.path().join(format!("{}.mdb", merklehash::compute_data_hash(&w).hex()));
+        files.push(w);
+        shards.push((path, key, stored));
+    }
+    let cap = *mdb_shard::constants::CHUNK_INDEX_TABLE_MAX_SIZE;
+    out.push(("obs", format!("cap={} tgt={}", cap, *mdb_shard::constants::MDB_SHARD_MIN_TARGET_SIZE)));
+    let rt = tokio::runtime::Builder::new_current_thread().enable_all().build().unwrap();
+    rt.block_on(async {
+        // the manager is opened on the still empty directory; the files appear afterwards and are registered one by one
+        let mgr = ShardFileManager::new_in_session_directory(dir.path()).await.unwrap();
+        for (i, w) in files.iter().enumerate() {
+            std::fs::write(&shards[i].0, w).unwrap();
+        }
+        let mut registered: Vec<usize> = vec![];
+        // what the manager was told: (key, stored blocks)
+        let mut told: Vec<(MerkleHash, Vec<MDBCASInfo>)> = vec![];
+        let mut told_chunks = 0usize;
+        let mut nq = 0;
+        for op in &ops {
+            match op[0] {
+                "R" => {
+                    let i: usize = op[1].parse().unwrap();
+                    if i < shards.len() {
+                        mgr.register_shards(&[mdb_shard::MDBShardFile::load_from_file(&shards[i].0).unwrap()]).await.unwrap();
+                        if !registered.contains(&i) {
+                            registered.push(i);
+                            told.push((shards[i].1, shards[i].2.clone()));
+                            told_chunks += shards[i].2.iter().map(|c| c.chunks.len()).sum::<usize>();
+                        }
+                    }
+                },
+                "A" => {
+                    let c = parse_cas(op);
+                    told_chunks += c.chunks.len();
+                    told.push((MerkleHash::default(), vec![c.clone()]));
+                    mgr.add_cas_block(c).await.unwrap();
+                },
+                "FL" => {
+                    mgr.flush().await.unwrap();
+                },
+                "qd" => {
+                    let qs = hashes(op[1]);
+                    match mgr.chunk_hash_dedup_query(&qs).await {
+                        Ok(a) => {
+                            out.push(("obs", format!("qd{} {}", nq, dump_seg(&a))));
+                            // truthful for a block the manager was told about, under that block's key
+                            if a.is_some() && !told.iter().any(|(k, bl)| truthful(bl, k, &qs, &a).is_ok()) {
+                                why.push(format!("qd{}-answer-is-no-run-of-any-block-the-manager-was-told-about", nq));
+                            }
+                            // complete below the cap (an upper bound of the counter is the number of chunks told)
+                            let answered = matches!(&a, Some((n, _)) if *n >= 1);
+                            if !answered && told_chunks < cap {
+                                let zero = MerkleHash::default();
+                                for (k, bl) in &told {
+                                    let want = if *k == zero { qs[0] } else { qs[0].hmac(*k) };
+                                    let known = bl.iter().any(|c| c.chunks.iter().take(65536).any(|ch| ch.chunk_hash == want));
+                                    if !known {
+                                        continue;
+                                    }
+                                    // ambiguous first 64 bits under this key: the table keeps one entry, the answer may be none
+                                    let clash = told.iter().filter(|(k2, _)| k2 == k).any(|(_, bl2)| {
+                                        bl2.iter().any(|c| c.chunks.iter().any(|ch| ch.chunk_hash[0] == want[0] && ch.chunk_hash != want))
+                                    });
+                                    if !clash {
+                                        why.push(format!("qd{}-chunk-the-manager-was-told-about-is-not-found-below-the-cap", nq));
+                                        break;
+                                    }
+                                }
+                            }
+                        },
+                        Err(e) => {
+                            out.push(("obs", format!("qd{} err", nq)));
+                            why.push(format!("qd{}-query-failed:{:?}", nq, e));
+                        },
+                    }
+                    nq += 1;
+                },
+                _ => {},
+            }
+        }
+    });
+    out.push(("orc", if why.is_empty() { "ok".to_string() } else { format!("FAIL [mgr] {}", why.join(",")) }));
+    out
+}
